@@ -13,6 +13,7 @@ CONSTANTS
   MaxReadFaults = 1
   AllowSoleRecordLoss = FALSE
   AllowIntraSetCollision = FALSE
+  AllowContinueAfterVolatile = TRUE
   RelevantSignersOnly = TRUE
 SPECIFICATION Spec
 VIEW View
